@@ -46,7 +46,7 @@ func c11Kinds() []c11kind {
 	raw := rtcp.RawPacket([]byte{0x80, 192, 0, 1, 9, 9, 9, 9})
 	return []c11kind{
 		{name: "SR", isSR: true, p: &rtcp.SenderReport{SSRC: 0xa1, NTPTime: 1, Reports: rep(1)}},
-		{name: "RR", isRR: true, p: &rtcp.ReceiverReport{SSRC: 0xa2, Reports: rep(2)}},
+		{name: "RR", isRR: true, p: &rtcp.ReceiverReport{SSRC: 0xa2}}, // no report blocks: an empty DestinationSSRC list
 		{name: "SDES-cname-first", isSDES: true, hasCN: true, cname: "first@x", p: &rtcp.SourceDescription{Chunks: []rtcp.SourceDescriptionChunk{{Source: 1, Items: []rtcp.SourceDescriptionItem{item(rtcp.SDESCNAME, "first@x"), item(rtcp.SDESName, "n")}}}}},
 		{name: "SDES-cname-later-item", isSDES: true, hasCN: true, cname: "later-item@x", p: &rtcp.SourceDescription{Chunks: []rtcp.SourceDescriptionChunk{{Source: 2, Items: []rtcp.SourceDescriptionItem{item(rtcp.SDESTool, "t"), item(rtcp.SDESCNAME, "later-item@x"), item(rtcp.SDESCNAME, "second-cname")}}}}},
 		{name: "SDES-cname-later-chunk", isSDES: true, hasCN: true, cname: "later-chunk@x", p: &rtcp.SourceDescription{Chunks: []rtcp.SourceDescriptionChunk{{Source: 3, Items: []rtcp.SourceDescriptionItem{item(rtcp.SDESNote, "note")}}, {Source: 4}, {Source: 5, Items: []rtcp.SourceDescriptionItem{item(rtcp.SDESCNAME, "later-chunk@x")}}}}},
@@ -119,6 +119,7 @@ func runC11(c *bx.Ctx) {
 				break
 			}
 		}
+		failed := false
 		rp := func(entry, exp, obs string) bx.Replay { return bx.Replay{Entry: entry, Ops: names, Expected: exp, Observed: obs} }
 		var verr error
 		if msg, pan := bx.Guard(func() { verr = seq.Validate() }); pan {
@@ -128,7 +129,7 @@ func runC11(c *bx.Ctx) {
 		c.T(1)
 		if (verr == nil) != valid {
 			c.Report(keyJoin("C11/Validate", fmt.Sprint("expected-valid=", valid)), "Validate disagrees with the RFC 3550 compound grammar", rp("Validate", fmt.Sprint("valid=", valid), fmt.Sprint(verr)))
-			return
+			failed = true
 		}
 		var mb []byte
 		var merr error
@@ -139,15 +140,15 @@ func runC11(c *bx.Ctx) {
 		c.T(1)
 		if (merr == nil) != (valid && allMarshal) {
 			c.Report(keyJoin("C11/Marshal", fmt.Sprint("expected-ok=", valid && allMarshal)), "CompoundPacket.Marshal succeeds/fails against Validate and the members", rp("Marshal", fmt.Sprint("ok=", valid && allMarshal), fmt.Sprint(merr)))
-			return
+			failed = true
 		}
 		if merr == nil && !bytes.Equal(mb, cat) {
 			c.Report("C11/Marshal/bytes", "CompoundPacket.Marshal is not the concatenation of its members", rp("Marshal", bx.Short(cat), bx.Short(mb)))
-			return
+			failed = true
 		}
 		if merr != nil && len(mb) != 0 {
 			c.Report("C11/Marshal/bytes-with-error", "CompoundPacket.Marshal returns bytes together with an error", rp("Marshal", "no bytes", bx.Short(mb)))
-			return
+			failed = true
 		}
 		if allMarshal {
 			var dec rtcp.CompoundPacket
@@ -159,18 +160,38 @@ func runC11(c *bx.Ctx) {
 			c.T(1)
 			if (uerr == nil) != valid {
 				c.Report(keyJoin("C11/Unmarshal", fmt.Sprint("expected-ok=", valid)), "CompoundPacket.Unmarshal succeeds/fails against the grammar", rp("Unmarshal", fmt.Sprint("ok=", valid), fmt.Sprint(uerr)))
-				return
+				failed = true
 			}
 			if uerr == nil {
 				if len(dec) != len(seq) {
 					c.Report("C11/Unmarshal/count", "CompoundPacket.Unmarshal returns a different number of members", rp("Unmarshal", fmt.Sprint(len(seq)), fmt.Sprint(len(dec))))
-					return
+					failed = true
 				}
 				for i := range dec {
 					if _, ok := ref.Equal(quantise(seq[i]), dec[i]); !ok {
 						c.Report(keyJoin("C11/Unmarshal/member", TypeName(seq[i])), "CompoundPacket.Unmarshal returns a different member", rp("Unmarshal", ref.Dump(seq[i]), ref.Dump(dec[i])))
-						return
+						failed = true
 					}
+				}
+			}
+		}
+		// datagrams that do not decode: surplus or missing octets at the end must make
+		// CompoundPacket.Unmarshal fail whatever the members are
+		if allMarshal && len(cat) >= 4 {
+			for _, mut := range [][]byte{append(append([]byte{}, cat...), 0x80), append(append([]byte{}, cat...), 0x80, 0xc9), append(append([]byte{}, cat...), 0x80, 0xc9, 0x00), cat[:len(cat)-1], cat[:len(cat)-3]} {
+				if _, serr := ref.Split(mut); serr == nil {
+					continue // still a well-framed datagram (cannot happen for these cuts, but stay faithful to the reference)
+				}
+				var dec rtcp.CompoundPacket
+				var uerr error
+				msg, pan := bx.Guard(func() { uerr = dec.Unmarshal(mut) })
+				c.T(1)
+				if pan {
+					c.Report("C11/Unmarshal/panic", "CompoundPacket.Unmarshal panics", rp("Unmarshal", "error", msg))
+					failed = true
+				} else if uerr == nil {
+					c.Report("C11/Unmarshal/undecodable-accepted", "CompoundPacket.Unmarshal succeeds on a datagram that does not decode (surplus or missing octets at the end)", bx.Replay{Entry: "own:CompoundPacket", InputHex: bx.Hex(mut), Ops: names, Expected: "error", Observed: "nil"})
+					failed = true
 				}
 			}
 		}
@@ -184,21 +205,21 @@ func runC11(c *bx.Ctx) {
 			c.T(1)
 			if cerr != nil || got != cname {
 				c.Report("C11/CNAME", "CNAME() does not return the first CNAME text without error on a valid compound", rp("CNAME", cname, fmt.Sprint(got, " ", cerr)))
-				return
+				failed = true
 			}
 			d, pan := safeDest(&seq)
 			want := ref.DestSSRC(seq[0])
 			c.T(2)
 			if pan != "" || !u32eq(d, want) {
 				c.Report("C11/DestinationSSRC", "DestinationSSRC is not the first member's", rp("DestinationSSRC", fmt.Sprintf("%x", want), fmt.Sprintf("%x %s", d, pan)))
-				return
+				failed = true
 			}
 			if ms := seq.MarshalSize(); ms != sum {
 				c.Report("C11/MarshalSize", "MarshalSize is not the sum of the members", rp("MarshalSize", fmt.Sprint(sum), fmt.Sprint(ms)))
-				return
+				failed = true
 			}
 		}
-		if len(idx) >= 2 {
+		if len(idx) >= 2 && !failed {
 			c.NT()
 		}
 		if valid {
